@@ -450,6 +450,26 @@ def run():
             chk.broke('correspondence: LevelFilter model (translated priority table) and %s differ on %d pairs, e.g. %s' % (made % 't', len(differ), differ[0]),
                       {'kind': 'correspondence', 'harness_mode': hmode, 'pairs': differ})
 
+    # ---- 1b. expressions QRegularExpression rejects: an expression that cannot be compiled matches nothing, so the filter
+    # passes nothing ("passes iff the expression matches the text") - asked of the implementation only, the modelled
+    # subset has no invalid expressions
+    invalid = ['(unclosed', '[a-', 'a{2,1}', '*start', 'x\\', '(?<n>a)(?<n>b)', 'a)', '(?P<1>x)']
+    probe_texts = [NULL, '', u16('a'), u16('(unclosed'), u16('*start'), u16('abc def')]
+    inv_lines = []
+    for k, pat in enumerate(invalid):
+        hx = ''.join('%02x' % b for b in pat.encode('utf-8'))
+        # two objects so that both constructors (QString / QRegularExpression) are used (the harness alternates by index)
+        inv_lines.append('o:RX~%s o:RX~%s p:0 p:1 ' % (hx, hx) + ' '.join('m:%d:4:0:%s' % (i % 2, t) for i, t in enumerate(probe_texts * 2)))
+    rc_inv, inv_obs, _ = vlib.run_lines(impl, inv_lines, timeout=60)
+    inv_bad = [(pat, o) for pat, o in zip(invalid, inv_obs + ['CRASH'] * (len(inv_lines) - len(inv_obs))) if o.replace('0;', '') != '']
+    hist['invalid_expressions_probed'] = len(invalid)
+    if inv_bad:
+        pat, o = inv_bad[0]
+        chk.fail('RegExpFilter(%r): the expression does not compile, so it matches no text and the filter must pass nothing; the real '
+                 'filter gives the observations %s (1 = passed) for the texts null, "", "a", the pattern text itself, "*start", "abc def"' % (pat, o[:80]),
+                 {'kind': 'regex', 'expression': pat, 'class': 'invalid_expression', 'implementation_observations': o, 'specified': '0;' * 12,
+                  'invalid_expressions_failing': [p_ for p_, _ in inv_bad]}, kind='regex')
+
     # ---- 2. scenarios through the real objects
     scns = []
     cdir = os.path.join(vlib.VERIF, 'corpus', 'C16')
